@@ -45,7 +45,7 @@ import numpy as np
 import core
 
 LEAN_MODULE = "Optyx.Props.C14"
-EXTRA_MODULES = ["Optyx.Props.PinsC14", "Optyx.Props.StateTie", "Optyx.Props.BuildTie"]   # transcription anchors (harness/source_pins.py)
+EXTRA_MODULES = ["Optyx.Props.PinsC14", "Optyx.Props.StateTie", "Optyx.Props.BuildTie", "Optyx.Props.VarsStepTie"]   # transcription anchors (harness/source_pins.py)
 THEOREMS = [
     "Optyx.Props.C14.cache_transparent",
     "Optyx.Props.C14.cache_transparent_run",
@@ -59,6 +59,9 @@ THEOREMS = [
     "Optyx.Props.StateTie.edits_are_source",
     "Optyx.Props.BuildTie.compile_step",
     "Optyx.Props.BuildTie.compileVec_step",
+    "Optyx.Props.VarsStepTie.exprVars_step",
+    "Optyx.Props.VarsStepTie.step_unique",
+    "Optyx.Props.VarsStepTie.matrixVariableGetVariables_text",
     "Optyx.Props.PinsC14.anchors",
 ]
 ASSUMPTIONS = [
